@@ -65,7 +65,7 @@ def scalar_fields():
     out = []
     for name, (ch, off, default, count) in \
             M.structs()["sv"]["fields"].items():
-        if count == 1 and not ch.endswith("s") and not name.startswith("__"):
+        if count == 1 and not ch.endswith("s"):      # padding words too
             out.append((name, ch, off))
     return out
 
